@@ -3,6 +3,8 @@
   and the generic "processing in chunks" facts used for n_jobs independence.
 -/
 import SSJ.Model.Matcher
+import SSJ.Props.Common
+import SSJ.Proofs.Rows
 import Mathlib.Data.List.Basic
 import Mathlib.Data.List.Nodup
 import Mathlib.Data.List.ProdSigma
@@ -255,6 +257,7 @@ def matcherRowM (a : MatcherArgs) (candLIdx candRIdx : Nat)
   if lv.isMissing || rv.isMissing then
     pure (if a.allowMissing then some (mk .missing) else none)
   else
+    if tok.isSome && cache.isNone && !(lv.isStr && rv.isStr) then throw PyErr.typeErr else
     let (la, ra) : SimArg × SimArg :=
       match tok with
       | some tk =>
@@ -264,6 +267,33 @@ def matcherRowM (a : MatcherArgs) (candLIdx candRIdx : Nat)
       | none => (.raw lv, .raw rv)
     let s := sim la ra
     pure (if compFn a.compOp s a.threshold then some (mk (scoreCell s)) else none)
+
+/-- all cells of column `j` are strings or missing (the `Prop` form of `joinCellsOk`) -/
+def StrCells (rows : List Row) (j : Nat) : Prop := ∀ row ∈ rows, (row.cell j).strOrMissing = true
+
+theorem joinCellsOk_iff (rows : List Row) (j : Nat) : joinCellsOk rows j = true ↔ StrCells rows j := by
+  unfold joinCellsOk StrCells
+  rw [List.all_eq_true]
+
+theorem Cell.isStr_of_strOrMissing (c : Cell) (h : c.strOrMissing = true) (hm : c.isMissing = false) :
+    c.isStr = true := by
+  cases c <;> first | rfl | (exact Bool.noConfusion hm) | (exact Bool.noConfusion h)
+
+theorem Cell.strOrMissing_of_isStr (c : Cell) (h : c.isStr = true) : c.strOrMissing = true := by
+  cases c <;> first | rfl | cases h
+
+theorem Cell.strOrMissing_of_isMissing (c : Cell) (h : c.isMissing = true) : c.strOrMissing = true := by
+  cases c <;> first | rfl | cases h
+
+/-- the outcome of one candidate row when no value is rejected by the tokenizer: KeyError if a key is
+    absent, else the row specification -/
+def matcherRowRes (a : MatcherArgs) (candLIdx candRIdx : Nat)
+    (lRows rRows : List Row) (lKeyIdx lAttrIdx rKeyIdx rAttrIdx : Nat) (o : OutCfg)
+    (tok : Option (String → List Tok)) (sim : SimArg → SimArg → PyV) (cr : Row) : Except PyErr (Option Row) :=
+  match Dict.get? (buildDict lRows lKeyIdx) (cr.cell candLIdx), Dict.get? (buildDict rRows rKeyIdx) (cr.cell candRIdx) with
+  | some lRow, some rRow =>
+    .ok (matcherRowSpec a o tok sim lAttrIdx rAttrIdx cr lRow rRow (cr.cell candLIdx) (cr.cell candRIdx))
+  | _, _ => .error PyErr.other
 
 theorem applyMatcherSplit_eq_mapM (a : MatcherArgs) (candLIdx candRIdx : Nat) (lRows rRows : List Row)
     (lKeyIdx lAttrIdx rKeyIdx rAttrIdx : Nat) (o : OutCfg) (tok : Option (String → List Tok)) (sim : SimArg → SimArg → PyV)
@@ -276,14 +306,17 @@ theorem applyMatcherSplit_eq_mapM (a : MatcherArgs) (candLIdx candRIdx : Nat) (l
            pure (rows.filterMap id)) = _
   cases chunk.mapM (matcherRowM a candLIdx candRIdx lRows rRows lKeyIdx lAttrIdx rKeyIdx rAttrIdx o tok sim cache) <;> rfl
 
-/-- one row, no cache: KeyError if a key is absent, else exactly the row specification -/
+/-- one row, no cache: KeyError if a key is absent; TypeError if a tokenizer is given and one of the two
+    (present) values is not a string; else exactly the row specification -/
 theorem matcherRowM_none (a : MatcherArgs) (candLIdx candRIdx : Nat) (lRows rRows : List Row)
     (lKeyIdx lAttrIdx rKeyIdx rAttrIdx : Nat) (o : OutCfg) (tok : Option (String → List Tok)) (sim : SimArg → SimArg → PyV)
     (cr : Row) :
     matcherRowM a candLIdx candRIdx lRows rRows lKeyIdx lAttrIdx rKeyIdx rAttrIdx o tok sim none cr
       = (match Dict.get? (buildDict lRows lKeyIdx) (cr.cell candLIdx), Dict.get? (buildDict rRows rKeyIdx) (cr.cell candRIdx) with
          | some lRow, some rRow =>
-            .ok (matcherRowSpec a o tok sim lAttrIdx rAttrIdx cr lRow rRow (cr.cell candLIdx) (cr.cell candRIdx))
+            if (tok.isSome && !((lRow.cell lAttrIdx).isMissing || (rRow.cell rAttrIdx).isMissing) &&
+                !((lRow.cell lAttrIdx).isStr && (rRow.cell rAttrIdx).isStr)) = true then .error PyErr.typeErr
+            else .ok (matcherRowSpec a o tok sim lAttrIdx rAttrIdx cr lRow rRow (cr.cell candLIdx) (cr.cell candRIdx))
          | _, _ => .error PyErr.other) := by
   unfold matcherRowM matcherRowSpec
   dsimp only
@@ -295,16 +328,85 @@ theorem matcherRowM_none (a : MatcherArgs) (candLIdx candRIdx : Nat) (lRows rRow
     | some rRow =>
       simp only [pure_bind]
       cases tok <;> by_cases hm : ((lRow.cell lAttrIdx).isMissing || (rRow.cell rAttrIdx).isMissing) = true <;>
-        simp only [hm, if_true] <;> rfl
+        by_cases hs : ((lRow.cell lAttrIdx).isStr && (rRow.cell rAttrIdx).isStr) = true <;>
+        simp only [hm, hs, if_true, Option.isSome_none, Option.isSome_some, Option.isNone_none, Bool.false_and,
+          Bool.true_and, Bool.not_true, Bool.not_false, Bool.and_false, Bool.and_true, Bool.false_eq_true, if_false] <;> rfl
 
-/-- one row: the token cache (built from the same tables with the same tokenizer) changes nothing -/
+/-- one row, no cache: a normal return is the row specification -/
+theorem matcherRowM_none_ok (a : MatcherArgs) (candLIdx candRIdx : Nat) (lRows rRows : List Row)
+    (lKeyIdx lAttrIdx rKeyIdx rAttrIdx : Nat) (o : OutCfg) (tok : Option (String → List Tok)) (sim : SimArg → SimArg → PyV)
+    (cr : Row) (y : Option Row)
+    (h : matcherRowM a candLIdx candRIdx lRows rRows lKeyIdx lAttrIdx rKeyIdx rAttrIdx o tok sim none cr = .ok y) :
+    y = (match Dict.get? (buildDict lRows lKeyIdx) (cr.cell candLIdx), Dict.get? (buildDict rRows rKeyIdx) (cr.cell candRIdx) with
+         | some lRow, some rRow => matcherRowSpec a o tok sim lAttrIdx rAttrIdx cr lRow rRow (cr.cell candLIdx) (cr.cell candRIdx)
+         | _, _ => none) := by
+  rw [matcherRowM_none] at h
+  cases hl : Dict.get? (buildDict lRows lKeyIdx) (cr.cell candLIdx) with
+  | none => rw [hl] at h; cases h
+  | some lRow =>
+    cases hr : Dict.get? (buildDict rRows rKeyIdx) (cr.cell candRIdx) with
+    | none => rw [hl, hr] at h; cases h
+    | some rRow =>
+      rw [hl, hr] at h
+      dsimp only at h ⊢
+      split at h
+      · cases h
+      · exact (Except.ok.inj h).symm
+
+/-- one row, no cache, both keys known: the only exception is the tokenizer's TypeError -/
+theorem matcherRowM_none_error (a : MatcherArgs) (candLIdx candRIdx : Nat) (lRows rRows : List Row)
+    (lKeyIdx lAttrIdx rKeyIdx rAttrIdx : Nat) (o : OutCfg) (tok : Option (String → List Tok)) (sim : SimArg → SimArg → PyV)
+    (cr : Row) (e : PyErr)
+    (hl : (Dict.get? (buildDict lRows lKeyIdx) (cr.cell candLIdx)).isSome)
+    (hr : (Dict.get? (buildDict rRows rKeyIdx) (cr.cell candRIdx)).isSome)
+    (h : matcherRowM a candLIdx candRIdx lRows rRows lKeyIdx lAttrIdx rKeyIdx rAttrIdx o tok sim none cr = .error e) :
+    e = .typeErr := by
+  rw [matcherRowM_none] at h
+  cases hl' : Dict.get? (buildDict lRows lKeyIdx) (cr.cell candLIdx) with
+  | none => rw [hl'] at hl; cases hl
+  | some lRow =>
+    cases hr' : Dict.get? (buildDict rRows rKeyIdx) (cr.cell candRIdx) with
+    | none => rw [hr'] at hr; cases hr
+    | some rRow =>
+      rw [hl', hr'] at h
+      dsimp only at h
+      split at h
+      · exact (Except.error.inj h).symm
+      · cases h
+
+/-- one row, no cache, string columns: the tokenizer rejects nothing -/
+theorem matcherRowM_none_str (a : MatcherArgs) (candLIdx candRIdx : Nat) (lRows rRows : List Row)
+    (lKeyIdx lAttrIdx rKeyIdx rAttrIdx : Nat) (o : OutCfg) (tok : Option (String → List Tok)) (sim : SimArg → SimArg → PyV)
+    (hstr : tok.isSome → StrCells lRows lAttrIdx ∧ StrCells rRows rAttrIdx) (cr : Row) :
+    matcherRowM a candLIdx candRIdx lRows rRows lKeyIdx lAttrIdx rKeyIdx rAttrIdx o tok sim none cr
+      = matcherRowRes a candLIdx candRIdx lRows rRows lKeyIdx lAttrIdx rKeyIdx rAttrIdx o tok sim cr := by
+  rw [matcherRowM_none, matcherRowRes]
+  cases hl : Dict.get? (buildDict lRows lKeyIdx) (cr.cell candLIdx) with
+  | none => rfl
+  | some lRow =>
+    cases hr : Dict.get? (buildDict rRows rKeyIdx) (cr.cell candRIdx) with
+    | none => rfl
+    | some rRow =>
+      dsimp only
+      rw [if_neg]
+      intro hg
+      simp only [Bool.and_eq_true, Bool.not_eq_true', Bool.or_eq_false_iff] at hg
+      obtain ⟨⟨ht, hml, hmr⟩, hns⟩ := hg
+      obtain ⟨hL, hR⟩ := hstr ht
+      have h1 := Cell.isStr_of_strOrMissing _ (hL lRow (buildDict_get_some _ _ _ _ hl).1) hml
+      have h2 := Cell.isStr_of_strOrMissing _ (hR rRow (buildDict_get_some _ _ _ _ hr).1) hmr
+      rw [h1, h2] at hns
+      cases hns
+
+/-- one row with the token cache (built from the same tables with the same tokenizer): no value reaches
+    the tokenizer here (`generate_tokens` did the tokenizing), the outcome is KeyError or the row specification -/
 theorem matcherRowM_cache (a : MatcherArgs) (candLIdx candRIdx : Nat) (lRows rRows : List Row)
     (lKeyIdx lAttrIdx rKeyIdx rAttrIdx : Nat) (o : OutCfg) (tk : String → List Tok) (sim : SimArg → SimArg → PyV)
     (hlk : (lRows.map (·.cell lKeyIdx)).Nodup) (hrk : (rRows.map (·.cell rKeyIdx)).Nodup) (cr : Row) :
     matcherRowM a candLIdx candRIdx lRows rRows lKeyIdx lAttrIdx rKeyIdx rAttrIdx o (some tk) sim
         (some (generateTokens lRows lKeyIdx lAttrIdx tk, generateTokens rRows rKeyIdx rAttrIdx tk)) cr
-      = matcherRowM a candLIdx candRIdx lRows rRows lKeyIdx lAttrIdx rKeyIdx rAttrIdx o (some tk) sim none cr := by
-  unfold matcherRowM
+      = matcherRowRes a candLIdx candRIdx lRows rRows lKeyIdx lAttrIdx rKeyIdx rAttrIdx o (some tk) sim cr := by
+  unfold matcherRowM matcherRowRes matcherRowSpec
   dsimp only
   cases hl : Dict.get? (buildDict lRows lKeyIdx) (cr.cell candLIdx) with
   | none => rfl
@@ -314,8 +416,8 @@ theorem matcherRowM_cache (a : MatcherArgs) (candLIdx candRIdx : Nat) (lRows rRo
     | some rRow =>
       simp only [pure_bind]
       by_cases hm : ((lRow.cell lAttrIdx).isMissing || (rRow.cell rAttrIdx).isMissing) = true
-      · simp only [hm, if_true]
-      · simp only [hm]
+      · simp only [hm, if_true]; rfl
+      · simp only [hm, Option.isNone_some, Bool.and_false, Bool.false_and, Bool.false_eq_true, if_false]
         have hm' := hm
         simp only [Bool.or_eq_true, not_or, Bool.not_eq_true] at hm'
         obtain ⟨hl1, hl2⟩ := buildDict_get_some _ _ _ _ hl
@@ -325,27 +427,49 @@ theorem matcherRowM_cache (a : MatcherArgs) (candLIdx candRIdx : Nat) (lRows rRo
         have e2 : Dict.getD (generateTokens rRows rKeyIdx rAttrIdx tk) (cr.cell candRIdx) [] = tk (rRow.cell rAttrIdx).strVal := by
           rw [Dict.getD, ← hr2, generateTokens_get _ _ _ _ hrk rRow hr1 hm'.2]; rfl
         rw [e1, e2]
+        rfl
 
-/-- (B2) the result (rows or KeyError) does not depend on whether the token cache is used -/
+/-- one chunk, with or without the token cache, string columns: row-wise `matcherRowRes` -/
+theorem applyMatcherSplit_eq_res (a : MatcherArgs) (candLIdx candRIdx : Nat) (lRows rRows : List Row)
+    (lKeyIdx lAttrIdx rKeyIdx rAttrIdx : Nat) (o : OutCfg) (tok : Option (String → List Tok)) (sim : SimArg → SimArg → PyV)
+    (useCache : Bool) (chunk : List Row)
+    (hlk : (lRows.map (·.cell lKeyIdx)).Nodup) (hrk : (rRows.map (·.cell rKeyIdx)).Nodup)
+    (hstr : tok.isSome → StrCells lRows lAttrIdx ∧ StrCells rRows rAttrIdx) :
+    applyMatcherSplit a candLIdx candRIdx lRows rRows lKeyIdx lAttrIdx rKeyIdx rAttrIdx o tok sim
+        (match (generalizing := false) tok, useCache with
+         | some tk, true => some (generateTokens lRows lKeyIdx lAttrIdx tk, generateTokens rRows rKeyIdx rAttrIdx tk)
+         | _, _ => none)
+        chunk
+      = (chunk.mapM (matcherRowRes a candLIdx candRIdx lRows rRows lKeyIdx lAttrIdx rKeyIdx rAttrIdx o tok sim)).map
+          (·.filterMap id) := by
+  rw [applyMatcherSplit_eq_mapM]
+  refine congrArg _ (except_mapM_congr _ _ chunk (fun cr _ => ?_))
+  cases tok with
+  | none => exact matcherRowM_none_str _ _ _ _ _ _ _ _ _ _ _ _ hstr cr
+  | some tk =>
+    cases useCache with
+    | false => exact matcherRowM_none_str _ _ _ _ _ _ _ _ _ _ _ _ hstr cr
+    | true => exact matcherRowM_cache a candLIdx candRIdx lRows rRows lKeyIdx lAttrIdx rKeyIdx rAttrIdx o tk sim hlk hrk cr
+
+/-- (B2) the result (rows or KeyError) does not depend on whether the token cache is used — when the two
+    columns hold only strings and missing values (otherwise the no-cache path raises TypeError at the first
+    referenced non-string, while with the cache `generate_tokens` has raised it before) -/
 theorem applyMatcherSplit_cache_irrel (a : MatcherArgs) (candLIdx candRIdx : Nat) (lRows rRows : List Row)
     (lKeyIdx lAttrIdx rKeyIdx rAttrIdx : Nat) (o : OutCfg) (tok : Option (String → List Tok)) (sim : SimArg → SimArg → PyV)
     (useCache : Bool) (chunk : List Row)
-    (hlk : (lRows.map (·.cell lKeyIdx)).Nodup) (hrk : (rRows.map (·.cell rKeyIdx)).Nodup) :
+    (hlk : (lRows.map (·.cell lKeyIdx)).Nodup) (hrk : (rRows.map (·.cell rKeyIdx)).Nodup)
+    (hstr : tok.isSome → StrCells lRows lAttrIdx ∧ StrCells rRows rAttrIdx) :
     applyMatcherSplit a candLIdx candRIdx lRows rRows lKeyIdx lAttrIdx rKeyIdx rAttrIdx o tok sim
-        (match tok, useCache with
+        (match (generalizing := false) tok, useCache with
          | some tk, true => some (generateTokens lRows lKeyIdx lAttrIdx tk, generateTokens rRows rKeyIdx rAttrIdx tk)
          | _, _ => none)
         chunk
       = applyMatcherSplit a candLIdx candRIdx lRows rRows lKeyIdx lAttrIdx rKeyIdx rAttrIdx o tok sim none chunk := by
-  cases tok with
-  | none => rfl
-  | some tk =>
-    cases useCache with
-    | false => rfl
-    | true =>
-      rw [applyMatcherSplit_eq_mapM, applyMatcherSplit_eq_mapM]
-      exact congrArg _ (except_mapM_congr _ _ chunk
-        (fun cr _ => matcherRowM_cache a candLIdx candRIdx lRows rRows lKeyIdx lAttrIdx rKeyIdx rAttrIdx o tk sim hlk hrk cr))
+  rw [applyMatcherSplit_eq_res _ _ _ _ _ _ _ _ _ _ _ _ useCache chunk hlk hrk hstr]
+  have := applyMatcherSplit_eq_res a candLIdx candRIdx lRows rRows lKeyIdx lAttrIdx rKeyIdx rAttrIdx o tok sim false chunk
+    hlk hrk hstr
+  rw [← this]
+  cases tok <;> rfl
 
 /-- the candidate-row function of the specification -/
 def matcherSpecFn (a : MatcherArgs) (candLIdx candRIdx : Nat) (lRows rRows : List Row)
@@ -361,9 +485,10 @@ theorem applyMatcherSplit_spec (a : MatcherArgs) (candLIdx candRIdx : Nat) (lRow
     (useCache : Bool) (chunk : List Row)
     (hl : ∀ cr ∈ chunk, (Dict.get? (buildDict lRows lKeyIdx) (cr.cell candLIdx)).isSome)
     (hr : ∀ cr ∈ chunk, (Dict.get? (buildDict rRows rKeyIdx) (cr.cell candRIdx)).isSome)
-    (hlk : (lRows.map (·.cell lKeyIdx)).Nodup) (hrk : (rRows.map (·.cell rKeyIdx)).Nodup) :
+    (hlk : (lRows.map (·.cell lKeyIdx)).Nodup) (hrk : (rRows.map (·.cell rKeyIdx)).Nodup)
+    (hstr : tok.isSome → StrCells lRows lAttrIdx ∧ StrCells rRows rAttrIdx) :
     applyMatcherSplit a candLIdx candRIdx lRows rRows lKeyIdx lAttrIdx rKeyIdx rAttrIdx o tok sim
-        (match tok, useCache with
+        (match (generalizing := false) tok, useCache with
          | some tk, true => some (generateTokens lRows lKeyIdx lAttrIdx tk, generateTokens rRows rKeyIdx rAttrIdx tk)
          | _, _ => none)
         chunk
@@ -371,13 +496,13 @@ theorem applyMatcherSplit_spec (a : MatcherArgs) (candLIdx candRIdx : Nat) (lRow
           match Dict.get? (buildDict lRows lKeyIdx) (cr.cell candLIdx), Dict.get? (buildDict rRows rKeyIdx) (cr.cell candRIdx) with
           | some lRow, some rRow => matcherRowSpec a o tok sim lAttrIdx rAttrIdx cr lRow rRow (cr.cell candLIdx) (cr.cell candRIdx)
           | _, _ => none)) := by
-  rw [applyMatcherSplit_cache_irrel _ _ _ _ _ _ _ _ _ _ _ _ _ _ hlk hrk, applyMatcherSplit_eq_mapM]
+  rw [applyMatcherSplit_eq_res _ _ _ _ _ _ _ _ _ _ _ _ _ _ hlk hrk hstr]
   rw [except_mapM_ok _ (matcherSpecFn a candLIdx candRIdx lRows rRows lKeyIdx lAttrIdx rKeyIdx rAttrIdx o tok sim) chunk]
   · simp only [Except.map]
     rw [List.filterMap_map]
     rfl
   · intro cr hcr
-    rw [matcherRowM_none, matcherSpecFn]
+    rw [matcherRowRes, matcherSpecFn]
     have h1 := hl cr hcr
     have h2 := hr cr hcr
     cases h1' : Dict.get? (buildDict lRows lKeyIdx) (cr.cell candLIdx) with
@@ -393,25 +518,26 @@ theorem applyMatcherSplit_error (a : MatcherArgs) (candLIdx candRIdx : Nat) (lRo
     (lKeyIdx lAttrIdx rKeyIdx rAttrIdx : Nat) (o : OutCfg) (tok : Option (String → List Tok)) (sim : SimArg → SimArg → PyV)
     (useCache : Bool) (chunk : List Row)
     (hlk : (lRows.map (·.cell lKeyIdx)).Nodup) (hrk : (rRows.map (·.cell rKeyIdx)).Nodup)
+    (hstr : tok.isSome → StrCells lRows lAttrIdx ∧ StrCells rRows rAttrIdx)
     (hex : ∃ cr ∈ chunk, Dict.get? (buildDict lRows lKeyIdx) (cr.cell candLIdx) = none ∨
                          Dict.get? (buildDict rRows rKeyIdx) (cr.cell candRIdx) = none) :
     applyMatcherSplit a candLIdx candRIdx lRows rRows lKeyIdx lAttrIdx rKeyIdx rAttrIdx o tok sim
-        (match tok, useCache with
+        (match (generalizing := false) tok, useCache with
          | some tk, true => some (generateTokens lRows lKeyIdx lAttrIdx tk, generateTokens rRows rKeyIdx rAttrIdx tk)
          | _, _ => none)
         chunk
       = .error PyErr.other := by
-  rw [applyMatcherSplit_cache_irrel _ _ _ _ _ _ _ _ _ _ _ _ _ _ hlk hrk, applyMatcherSplit_eq_mapM]
+  rw [applyMatcherSplit_eq_res _ _ _ _ _ _ _ _ _ _ _ _ _ _ hlk hrk hstr]
   rw [except_mapM_error _ PyErr.other chunk]
   · rfl
   · intro cr _ e' he'
-    rw [matcherRowM_none] at he'
+    rw [matcherRowRes] at he'
     split at he'
     · cases he'
     · cases he'; rfl
   · obtain ⟨cr, hcr, h⟩ := hex
     refine ⟨cr, hcr, PyErr.other, ?_⟩
-    rw [matcherRowM_none]
+    rw [matcherRowRes]
     rcases h with h | h
     · rw [h]
     · rw [h]; split
@@ -456,14 +582,15 @@ theorem applyMatcherSplit_chunks_spec (a : MatcherArgs) (candLIdx candRIdx : Nat
     (useCache : Bool) (cand : List Row) (chunks : List (List Row)) (hchunks : chunks.flatten = cand)
     (hl : ∀ cr ∈ cand, (Dict.get? (buildDict lRows lKeyIdx) (cr.cell candLIdx)).isSome)
     (hr : ∀ cr ∈ cand, (Dict.get? (buildDict rRows rKeyIdx) (cr.cell candRIdx)).isSome)
-    (hlk : (lRows.map (·.cell lKeyIdx)).Nodup) (hrk : (rRows.map (·.cell rKeyIdx)).Nodup) :
+    (hlk : (lRows.map (·.cell lKeyIdx)).Nodup) (hrk : (rRows.map (·.cell rKeyIdx)).Nodup)
+    (hstr : tok.isSome → StrCells lRows lAttrIdx ∧ StrCells rRows rAttrIdx) :
     (chunks.mapM (applyMatcherSplit a candLIdx candRIdx lRows rRows lKeyIdx lAttrIdx rKeyIdx rAttrIdx o tok sim
-        (match tok, useCache with
+        (match (generalizing := false) tok, useCache with
          | some tk, true => some (generateTokens lRows lKeyIdx lAttrIdx tk, generateTokens rRows rKeyIdx rAttrIdx tk)
          | _, _ => none))).map List.flatten
       = .ok (cand.filterMap (matcherSpecFn a candLIdx candRIdx lRows rRows lKeyIdx lAttrIdx rKeyIdx rAttrIdx o tok sim)) := by
   rw [applyMatcherSplit_chunks, hchunks,
-    applyMatcherSplit_spec a candLIdx candRIdx lRows rRows lKeyIdx lAttrIdx rKeyIdx rAttrIdx o tok sim useCache cand hl hr hlk hrk]
+    applyMatcherSplit_spec a candLIdx candRIdx lRows rRows lKeyIdx lAttrIdx rKeyIdx rAttrIdx o tok sim useCache cand hl hr hlk hrk hstr]
   rfl
 
 theorem withScore_cons_cell_zero (b : Bool) (x : Cell) (r : Row) (s : Cell) : (withScore b (x :: r) s).cell 0 = x := by
@@ -492,9 +619,10 @@ theorem matcherRowSpec_cell_zero (a : MatcherArgs) (o : OutCfg) (tok : Option (S
 theorem applyMatcherSplit_ids_sublist (a : MatcherArgs) (candLIdx candRIdx : Nat) (lRows rRows : List Row)
     (lKeyIdx lAttrIdx rKeyIdx rAttrIdx : Nat) (o : OutCfg) (tok : Option (String → List Tok)) (sim : SimArg → SimArg → PyV)
     (useCache : Bool) (chunk : List Row)
-    (hlk : (lRows.map (·.cell lKeyIdx)).Nodup) (hrk : (rRows.map (·.cell rKeyIdx)).Nodup) (rows : List Row)
+    (hlk : (lRows.map (·.cell lKeyIdx)).Nodup) (hrk : (rRows.map (·.cell rKeyIdx)).Nodup)
+    (hstr : tok.isSome → StrCells lRows lAttrIdx ∧ StrCells rRows rAttrIdx) (rows : List Row)
     (h : applyMatcherSplit a candLIdx candRIdx lRows rRows lKeyIdx lAttrIdx rKeyIdx rAttrIdx o tok sim
-        (match tok, useCache with
+        (match (generalizing := false) tok, useCache with
          | some tk, true => some (generateTokens lRows lKeyIdx lAttrIdx tk, generateTokens rRows rKeyIdx rAttrIdx tk)
          | _, _ => none)
         chunk = .ok rows) :
@@ -513,10 +641,10 @@ theorem applyMatcherSplit_ids_sublist (a : MatcherArgs) (candLIdx candRIdx : Nat
         | none => exact Or.inr rfl
         | some _ => rw [h1, h2] at hcon; exact absurd ⟨rfl, rfl⟩ hcon
     rw [applyMatcherSplit_error a candLIdx candRIdx lRows rRows lKeyIdx lAttrIdx rKeyIdx rAttrIdx o tok sim useCache chunk
-      hlk hrk ⟨cr, hcr, this⟩] at h
+      hlk hrk hstr ⟨cr, hcr, this⟩] at h
     cases h
   rw [applyMatcherSplit_spec a candLIdx candRIdx lRows rRows lKeyIdx lAttrIdx rKeyIdx rAttrIdx o tok sim useCache chunk
-    (fun cr hcr => (hres cr hcr).1) (fun cr hcr => (hres cr hcr).2) hlk hrk] at h
+    (fun cr hcr => (hres cr hcr).1) (fun cr hcr => (hres cr hcr).2) hlk hrk hstr] at h
   cases Except.ok.inj h
   clear h hres
   induction chunk with
@@ -837,7 +965,8 @@ theorem candset_lookup (f : Frame) (key attr : String) (k v : Cell) (hnd : (f.co
     the result is the candset restricted — same columns and dtypes, same row order, index labels
     carried along — to the rows whose pair is not dropped by `fp`; for every `a.nJobs`, provided the
     chunking is a partition (`hchunks`). -/
-theorem filterCandset_spec (a : CandsetArgs) (fp : Cell → Cell → Bool) (cpu : Int) (c l r : Frame)
+theorem filterCandset_spec (a : CandsetArgs) (fp : Cell → Cell → Except PyErr Bool) (fpb : Cell → Cell → Bool)
+    (cpu : Int) (c l r : Frame)
     (hc : a.candset = some c) (hlt : a.ltable = some l) (hrt : a.rtable = some r)
     (hv1 : validateAttr a.candLKey c = .ok ()) (hv2 : validateAttr a.candRKey c = .ok ())
     (hv3 : validateAttr a.lKey l = .ok ()) (hv4 : validateAttr a.rKey r = .ok ())
@@ -849,18 +978,19 @@ theorem filterCandset_spec (a : CandsetArgs) (fp : Cell → Cell → Bool) (cpu 
                                          lrow.cell (l.colIdx a.lAttr) = lval cr)
     (hr : ∀ cr ∈ c.rows, ∃ rrow ∈ r.rows, rrow.cell (r.colIdx a.rKey) = cr.cell (c.colIdx a.candRKey) ∧
                                          rrow.cell (r.colIdx a.rAttr) = rval cr)
+    (hfp : ∀ cr ∈ c.rows, fp (lval cr) (rval cr) = .ok (fpb (lval cr) (rval cr)))
     (hchunks : (chunksFor (candLabelled c) a.nJobs cpu).flatten = candLabelled c) :
     filterCandset a fp cpu
       = .ok (if c.rows.isEmpty then c else
-          { c with index := ((candLabelled c).filter (fun p => !fp (lval p.1) (rval p.1))).map (·.2),
-                   rows := ((candLabelled c).filter (fun p => !fp (lval p.1) (rval p.1))).map (·.1) }) := by
+          { c with index := ((candLabelled c).filter (fun p => !fpb (lval p.1) (rval p.1))).map (·.2),
+                   rows := ((candLabelled c).filter (fun p => !fpb (lval p.1) (rval p.1))).map (·.1) }) := by
   unfold filterCandset
   simp only [hc, hlt, hrt, validateInputTable, hv1, hv2, hv3, hv4, hv5, hv6, hv7, hv8, hv9, hv10, except_ok_bind]
   by_cases hemp : c.rows.isEmpty = true
   · rw [if_pos hemp, if_pos hemp]; rfl
   · rw [if_neg hemp, if_neg hemp]
     rw [show c.rows.zip (c.index ++ List.replicate (c.rows.length - c.index.length) Cell.missing) = candLabelled c from rfl]
-    rw [chunks_filterMapM_ok (g := fun x => if (!fp (lval x.1) (rval x.1)) = true then some x else none)]
+    rw [chunks_filterMapM_ok (g := fun x => if (!fpb (lval x.1) (rval x.1)) = true then some x else none)]
     · rw [except_ok_bind, ← List.filterMap_flatten, hchunks, filterMap_ite_eq_filter]
       rfl
     · intro x hx
@@ -868,7 +998,7 @@ theorem filterCandset_spec (a : CandsetArgs) (fp : Cell → Cell → Bool) (cpu 
       have hmem : x.1 ∈ c.rows := (List.of_mem_zip (a := x.1) (b := x.2) hx).1
       obtain ⟨pl, hpl1, hpl2⟩ := candset_lookup l a.lKey a.lAttr _ _ (nodup_of_validateKeyAttr _ _ hv9) (hl x.1 hmem)
       obtain ⟨pr, hpr1, hpr2⟩ := candset_lookup r a.rKey a.rAttr _ _ (nodup_of_validateKeyAttr _ _ hv10) (hr x.1 hmem)
-      simp only [hpl1, hpr1, hpl2, hpr2, pure_bind]
+      simp only [hpl1, hpr1, hpl2, hpr2, pure_bind, hfp x.1 hmem]
       rfl
 
 theorem candLabelled_map_fst (c : Frame) : (candLabelled c).map Prod.fst = c.rows := by
@@ -878,7 +1008,8 @@ theorem candLabelled_map_fst (c : Frame) : (candLabelled c).map Prod.fst = c.row
 
 /-- (C06, rows only) in every case — empty candset included — the result keeps the columns and exactly
     the candset rows whose pair is not dropped by `fp`, in candset order, independently of `a.nJobs` -/
-theorem filterCandset_rows (a : CandsetArgs) (fp : Cell → Cell → Bool) (cpu : Int) (c l r : Frame)
+theorem filterCandset_rows (a : CandsetArgs) (fp : Cell → Cell → Except PyErr Bool) (fpb : Cell → Cell → Bool)
+    (cpu : Int) (c l r : Frame)
     (hc : a.candset = some c) (hlt : a.ltable = some l) (hrt : a.rtable = some r)
     (hv1 : validateAttr a.candLKey c = .ok ()) (hv2 : validateAttr a.candRKey c = .ok ())
     (hv3 : validateAttr a.lKey l = .ok ()) (hv4 : validateAttr a.rKey r = .ok ())
@@ -890,18 +1021,19 @@ theorem filterCandset_rows (a : CandsetArgs) (fp : Cell → Cell → Bool) (cpu 
                                          lrow.cell (l.colIdx a.lAttr) = lval cr)
     (hr : ∀ cr ∈ c.rows, ∃ rrow ∈ r.rows, rrow.cell (r.colIdx a.rKey) = cr.cell (c.colIdx a.candRKey) ∧
                                          rrow.cell (r.colIdx a.rAttr) = rval cr)
+    (hfp : ∀ cr ∈ c.rows, fp (lval cr) (rval cr) = .ok (fpb (lval cr) (rval cr)))
     (hchunks : (chunksFor (candLabelled c) a.nJobs cpu).flatten = candLabelled c) :
     ∃ f, filterCandset a fp cpu = .ok f ∧ f.columns = c.columns ∧ f.dtypes = c.dtypes ∧
-      f.rows = c.rows.filter (fun cr => !fp (lval cr) (rval cr)) := by
-  refine ⟨_, filterCandset_spec a fp cpu c l r hc hlt hrt hv1 hv2 hv3 hv4 hv5 hv6 hv7 hv8 hv9 hv10 lval rval hl hr hchunks,
-    ?_, ?_, ?_⟩
+      f.rows = c.rows.filter (fun cr => !fpb (lval cr) (rval cr)) := by
+  refine ⟨_, filterCandset_spec a fp fpb cpu c l r hc hlt hrt hv1 hv2 hv3 hv4 hv5 hv6 hv7 hv8 hv9 hv10 lval rval hl hr hfp
+    hchunks, ?_, ?_, ?_⟩
   · split <;> rfl
   · split <;> rfl
   · split
     · next hemp =>
       rw [List.isEmpty_iff] at hemp
       rw [hemp]; rfl
-    · show ((candLabelled c).filter ((fun cr => !fp (lval cr) (rval cr)) ∘ Prod.fst)).map Prod.fst = _
+    · show ((candLabelled c).filter ((fun cr => !fpb (lval cr) (rval cr)) ∘ Prod.fst)).map Prod.fst = _
       rw [← List.filter_map, candLabelled_map_fst]
 
 /-! ## apply_matcher at table level (C05 end to end) -/
@@ -937,15 +1069,16 @@ theorem applyMatcherSplit_spec' (a : MatcherArgs) (candLIdx candRIdx : Nat) (lRo
       cache = some (generateTokens lRows lKeyIdx lAttrIdx tk, generateTokens rRows rKeyIdx rAttrIdx tk))
     (hl : ∀ cr ∈ chunk, (Dict.get? (buildDict lRows lKeyIdx) (cr.cell candLIdx)).isSome)
     (hr : ∀ cr ∈ chunk, (Dict.get? (buildDict rRows rKeyIdx) (cr.cell candRIdx)).isSome)
-    (hlk : (lRows.map (·.cell lKeyIdx)).Nodup) (hrk : (rRows.map (·.cell rKeyIdx)).Nodup) :
+    (hlk : (lRows.map (·.cell lKeyIdx)).Nodup) (hrk : (rRows.map (·.cell rKeyIdx)).Nodup)
+    (hstr : tok.isSome → StrCells lRows lAttrIdx ∧ StrCells rRows rAttrIdx) :
     applyMatcherSplit a candLIdx candRIdx lRows rRows lKeyIdx lAttrIdx rKeyIdx rAttrIdx o tok sim cache chunk
       = .ok (chunk.filterMap (matcherSpecFn a candLIdx candRIdx lRows rRows lKeyIdx lAttrIdx rKeyIdx rAttrIdx o tok sim)) := by
   rcases hcache with rfl | ⟨tk, rfl, rfl⟩
   · have := applyMatcherSplit_spec a candLIdx candRIdx lRows rRows lKeyIdx lAttrIdx rKeyIdx rAttrIdx o tok sim false chunk
-      hl hr hlk hrk
+      hl hr hlk hrk hstr
     cases tok <;> exact this
   · exact applyMatcherSplit_spec a candLIdx candRIdx lRows rRows lKeyIdx lAttrIdx rKeyIdx rAttrIdx o (some tk) sim true chunk
-      hl hr hlk hrk
+      hl hr hlk hrk hstr
 
 /-- the columns `apply_matcher` projects the left table to: key, join attribute, other output attributes -/
 def matcherLProj (a : MatcherArgs) : List String :=
@@ -1024,6 +1157,72 @@ def matcherChunkM (a : MatcherArgs) (t : Option TokObj) (toks : TokFn) (sim : Si
         | none => none) ch
   mkRows rows (matcherHeader a)
 
+/-- string columns give string cells in the projected tables of `apply_matcher` -/
+theorem matcherLRows_strCells (a : MatcherArgs) (l : Frame) (h : Props.StrColumn l a.lAttr) :
+    StrCells (matcherLRows a l) ((matcherLProj a).idxOf a.lAttr) := by
+  intro row hrow
+  obtain ⟨s, hs, rfl⟩ := List.mem_map.1 hrow
+  have := (projection_faithful l a.lKey a.lAttr a.lOut s).2.1
+  rw [matcherLProj, this]
+  exact h s hs
+
+theorem matcherRRows_strCells (a : MatcherArgs) (r : Frame) (h : Props.StrColumn r a.rAttr) :
+    StrCells (matcherRRows a r) ((matcherRProj a).idxOf a.rAttr) := by
+  intro row hrow
+  obtain ⟨s, hs, rfl⟩ := List.mem_map.1 hrow
+  have := (projection_faithful r a.rKey a.rAttr a.rOut s).2.1
+  rw [matcherRProj, this]
+  exact h s hs
+
+/-- and conversely -/
+theorem strColumn_of_matcherLRows (a : MatcherArgs) (l : Frame)
+    (h : StrCells (matcherLRows a l) ((matcherLProj a).idxOf a.lAttr)) : Props.StrColumn l a.lAttr := by
+  intro s hs
+  have := (projection_faithful l a.lKey a.lAttr a.lOut s).2.1
+  have h' := h _ (List.mem_map_of_mem (f := fun row : Row => ((matcherLProj a).map l.colIdx).map row.cell) hs)
+  rw [matcherLProj, this] at h'
+  exact h'
+
+theorem strColumn_of_matcherRRows (a : MatcherArgs) (r : Frame)
+    (h : StrCells (matcherRRows a r) ((matcherRProj a).idxOf a.rAttr)) : Props.StrColumn r a.rAttr := by
+  intro s hs
+  have := (projection_faithful r a.rKey a.rAttr a.rOut s).2.1
+  have h' := h _ (List.mem_map_of_mem (f := fun row : Row => ((matcherRProj a).map r.colIdx).map row.cell) hs)
+  rw [matcherRProj, this] at h'
+  exact h'
+
+/-- the token cache `apply_matcher` decides on (verbatim): `generate_tokens` tokenizes every present value
+    of the two columns and raises TypeError on a non-string -/
+def matcherCacheM (a : MatcherArgs) (t : Option TokObj) (toks : TokFn) (c l r : Frame) :
+    Except PyErr (Option (List (Cell × List Tok) × List (Cell × List Tok))) :=
+  tokenCache (t.map (fun tk => toks tk.returnSet)) (decide ((l.rows.length + r.rows.length : Nat) < c.rows.length * 2))
+    (matcherLRows a l) (matcherRRows a r) ((matcherLProj a).idxOf a.lKey) ((matcherLProj a).idxOf a.lAttr)
+    ((matcherRProj a).idxOf a.rKey) ((matcherRProj a).idxOf a.rAttr)
+
+/-- the cache when `generate_tokens` does not raise -/
+def matcherCache (a : MatcherArgs) (t : Option TokObj) (toks : TokFn) (c l r : Frame) :
+    Option (List (Cell × List Tok) × List (Cell × List Tok)) :=
+  match t.map (fun tk => toks tk.returnSet) with
+  | some tk =>
+    if (l.rows.length + r.rows.length : Nat) < c.rows.length * 2 then
+      some (generateTokens (matcherLRows a l) ((matcherLProj a).idxOf a.lKey) ((matcherLProj a).idxOf a.lAttr) tk,
+            generateTokens (matcherRRows a r) ((matcherRProj a).idxOf a.rKey) ((matcherRProj a).idxOf a.rAttr) tk)
+    else none
+  | none => none
+
+theorem matcherCacheM_eq (a : MatcherArgs) (t : Option TokObj) (toks : TokFn) (c l r : Frame)
+    (hstr : t.isSome → Props.StrColumn l a.lAttr ∧ Props.StrColumn r a.rAttr) :
+    matcherCacheM a t toks c l r = .ok (matcherCache a t toks c l r) := by
+  unfold matcherCacheM matcherCache tokenCache
+  cases t with
+  | none => rfl
+  | some tk =>
+    obtain ⟨hL, hR⟩ := hstr rfl
+    have h1 := (joinCellsOk_iff _ _).2 (matcherLRows_strCells a l hL)
+    have h2 := (joinCellsOk_iff _ _).2 (matcherRRows_strCells a r hR)
+    simp only [Option.map_some, h1, h2, Bool.and_self, if_true, decide_eq_true_eq]
+    split <;> rfl
+
 /-- (C05 end to end) when the validations succeed and every candidate key occurs in its table,
     `apply_matcher` returns — for every `a.nJobs`, provided the chunking is a partition (`hchunks`), and
     whether or not the token cache is used — the candset itself if it is empty, and otherwise the frame
@@ -1041,7 +1240,8 @@ theorem applyMatcher_spec (a : MatcherArgs) (t : Option TokObj) (toks : TokFn) (
     (hv10 : validateKeyAttr a.lKey l = .ok ()) (hv11 : validateKeyAttr a.rKey r = .ok ())
     (hl : ∀ cr ∈ c.rows, cr.cell (c.colIdx a.candLKey) ∈ l.col a.lKey)
     (hr : ∀ cr ∈ c.rows, cr.cell (c.colIdx a.candRKey) ∈ r.col a.rKey)
-    (hchunks : (chunksFor c.rows a.nJobs cpu).flatten = c.rows) :
+    (hchunks : (chunksFor c.rows a.nJobs cpu).flatten = c.rows)
+    (hstr : t.isSome → Props.StrColumn l a.lAttr ∧ Props.StrColumn r a.rAttr) :
     applyMatcher a t toks sim cpu
       = .ok (if c.rows.isEmpty then c else
           { columns := matcherHeader a
@@ -1060,7 +1260,10 @@ theorem applyMatcher_spec (a : MatcherArgs) (t : Option TokObj) (toks : TokFn) (
         = Except.ok (ch.filterMap (matcherTableSpec a t toks sim c l r)) := by
     intro ch hch
     unfold matcherChunkM
-    rw [applyMatcherSplit_spec' (hlk := hlk) (hrk := hrk)]
+    rw [applyMatcherSplit_spec' (hlk := hlk) (hrk := hrk)
+      (hstr := fun ht => by
+        have ht' : t.isSome := by cases t <;> first | rfl | cases ht
+        exact ⟨matcherLRows_strCells a l (hstr ht').1, matcherRRows_strCells a r (hstr ht').2⟩)]
     · rw [except_ok_bind, mkRows_of_length]
       · rfl
       · intro row hrow
@@ -1091,18 +1294,48 @@ theorem applyMatcher_spec (a : MatcherArgs) (t : Option TokObj) (toks : TokFn) (
       rfl
   · have hfin := except_mapM_ok (matcherChunkM a t toks sim c l r)
       (fun (ch : List Row) => ch.filterMap (matcherTableSpec a t toks sim c l r)) _ hchunk
+    have hcache := matcherCacheM_eq a t toks c l r hstr
     cases t with
     | none =>
-      simp only [hc, hlt, hrt, validateInputTable, hv1, hv2, hv3, hv4, hv5, hv6, hv7, hv9, hv10, hv11, except_ok_bind, hemp]
+      simp only [hc, hlt, hrt, validateInputTable, hv1, hv2, hv3, hv4, hv5, hv6, hv7, hv9, hv10, hv11, except_ok_bind, hemp,
+        Bool.false_eq_true, if_false]
+      refine Eq.trans (congrArg (fun x => x >>= _) hcache) ?_
+      rw [except_ok_bind]
       refine Eq.trans (congrArg (fun x => x >>= _) hfin) ?_
       rw [except_ok_bind, ← List.filterMap_flatten, hchunks, List.flatMap_map]
       rfl
     | some tk =>
       simp only [hc, hlt, hrt, validateInputTable, hv1, hv2, hv3, hv4, hv5, hv6, hv7, hv8 tk rfl, hv9, hv10, hv11,
-        except_ok_bind, hemp]
+        except_ok_bind, hemp, Bool.false_eq_true, if_false]
+      refine Eq.trans (congrArg (fun x => x >>= _) hcache) ?_
+      rw [except_ok_bind]
       refine Eq.trans (congrArg (fun x => x >>= _) hfin) ?_
       rw [except_ok_bind, ← List.filterMap_flatten, hchunks, List.flatMap_map]
       rfl
+
+/-- an empty candset is returned as it is — before any value is tokenized, so whatever the columns hold -/
+theorem applyMatcher_empty (a : MatcherArgs) (t : Option TokObj) (toks : TokFn) (sim : SimArg → SimArg → PyV) (cpu : Int)
+    (c l r : Frame)
+    (hc : a.candset = some c) (hlt : a.ltable = some l) (hrt : a.rtable = some r)
+    (hv1 : validateAttr a.candLKey c = .ok ()) (hv2 : validateAttr a.candRKey c = .ok ())
+    (hv3 : validateAttr a.lKey l = .ok ()) (hv4 : validateAttr a.rKey r = .ok ())
+    (hv5 : validateAttr a.lAttr l = .ok ()) (hv6 : validateAttr a.rAttr r = .ok ())
+    (hv7 : validateOutputAttrs a.lOut l a.rOut r = .ok ())
+    (hv8 : ∀ tk, t = some tk → validateTokenizer tk = .ok ())
+    (hv9 : genCheck (Gen.validate_comp_op (.str a.compOp)) = .ok ())
+    (hv10 : validateKeyAttr a.lKey l = .ok ()) (hv11 : validateKeyAttr a.rKey r = .ok ())
+    (hemp : c.rows.isEmpty = true) :
+    applyMatcher a t toks sim cpu = .ok c := by
+  unfold applyMatcher
+  cases t with
+  | none =>
+    simp only [hc, hlt, hrt, validateInputTable, hv1, hv2, hv3, hv4, hv5, hv6, hv7, hv9, hv10, hv11, except_ok_bind, hemp,
+      if_true]
+    rfl
+  | some tk =>
+    simp only [hc, hlt, hrt, validateInputTable, hv1, hv2, hv3, hv4, hv5, hv6, hv7, hv8 tk rfl, hv9, hv10, hv11,
+      except_ok_bind, hemp, if_true]
+    rfl
 
 /-- (C05, rows only) the rows of `apply_matcher`'s result are the spec rows of the candidate rows in candset
     order, whatever `a.nJobs` is and whether or not the token cache is used -/
@@ -1118,12 +1351,13 @@ theorem applyMatcher_rows (a : MatcherArgs) (t : Option TokObj) (toks : TokFn) (
     (hv10 : validateKeyAttr a.lKey l = .ok ()) (hv11 : validateKeyAttr a.rKey r = .ok ())
     (hl : ∀ cr ∈ c.rows, cr.cell (c.colIdx a.candLKey) ∈ l.col a.lKey)
     (hr : ∀ cr ∈ c.rows, cr.cell (c.colIdx a.candRKey) ∈ r.col a.rKey)
-    (hchunks : (chunksFor c.rows a.nJobs cpu).flatten = c.rows) :
+    (hchunks : (chunksFor c.rows a.nJobs cpu).flatten = c.rows)
+    (hstr : t.isSome → Props.StrColumn l a.lAttr ∧ Props.StrColumn r a.rAttr) :
     ∃ f, applyMatcher a t toks sim cpu = .ok f ∧
       f.columns = (if c.rows.isEmpty then c.columns else matcherHeader a) ∧
       f.rows = c.rows.filterMap (matcherTableSpec a t toks sim c l r) := by
-  refine ⟨_, applyMatcher_spec a t toks sim cpu c l r hc hlt hrt hv1 hv2 hv3 hv4 hv5 hv6 hv7 hv8 hv9 hv10 hv11 hl hr hchunks,
-    ?_, ?_⟩
+  refine ⟨_, applyMatcher_spec a t toks sim cpu c l r hc hlt hrt hv1 hv2 hv3 hv4 hv5 hv6 hv7 hv8 hv9 hv10 hv11 hl hr hchunks
+    hstr, ?_, ?_⟩
   · split <;> rfl
   · split
     · next hemp =>
